@@ -445,7 +445,7 @@ def check_property(pid, tier):
     groups = {}
     for o in obls:
         if pid == "C20":
-            fs = o["features"] if len(o["features"]) > 1 else []
+            fs = o["features"] if (len(o["features"]) > 1 and (tier != "quick" or o.get("dual_quick"))) else []
         else:
             fs = [o["features"][0]]   # primary configuration of the obligation
         for f in fs:
